@@ -13,6 +13,7 @@ static T_GOT: AtomicU32 = AtomicU32::new(0);
 static W_GOT: AtomicU32 = AtomicU32::new(0);
 static CHILD_RUNS: AtomicU32 = AtomicU32::new(0);
 static CHILD_DONE: AtomicBool = AtomicBool::new(false);
+static HELPER_DONE: AtomicBool = AtomicBool::new(false);
 
 #[derive(Clone, Copy, PartialEq, Debug)]
 pub enum Prim {
@@ -28,6 +29,12 @@ pub enum Prim {
     MpmcRecv,
     Join,
     Yield,
+    ParkTimeout,
+    SemTimeout,
+    CondvarTimeout,
+    MpscRecvTimeout,
+    SpscRecv,
+    Barrier,
 }
 
 struct Shared {
@@ -37,6 +44,8 @@ struct Shared {
     cvm: Mutex<bool>,
     rw: RwLock<u32>,
     flag: SyncFlag,
+    bar: may::sync::Barrier,
+    rx3: std::sync::Mutex<Option<may::sync::spsc::Receiver<u32>>>,
 }
 
 /// the blocking call under test; true when it returned normally
@@ -88,6 +97,40 @@ fn block_in(p: Prim, s: &Shared, who: &AtomicU32, rx1: Option<&mpsc::Receiver<u3
                 who.fetch_add(1, Ordering::SeqCst);
             }
         }
+        Prim::ParkTimeout => coroutine::park_timeout(Duration::from_millis(2)),
+        Prim::SemTimeout => {
+            if s.sem.wait_timeout(Duration::from_millis(2)) {
+                who.fetch_add(1, Ordering::SeqCst);
+            }
+        }
+        Prim::CondvarTimeout => {
+            let mut g = s.cvm.lock().unwrap();
+            while !*g {
+                let (g2, r) = s.cv.wait_timeout(g, Duration::from_millis(2)).unwrap();
+                g = g2;
+                if r.timed_out() {
+                    break;
+                }
+            }
+            if *g {
+                who.fetch_add(1, Ordering::SeqCst);
+            }
+        }
+        Prim::MpscRecvTimeout => {
+            if rx1.unwrap().recv_timeout(Duration::from_millis(2)).is_ok() {
+                who.fetch_add(1, Ordering::SeqCst);
+            }
+        }
+        Prim::SpscRecv => {
+            let rx = s.rx3.lock().unwrap().take().unwrap();
+            if rx.recv().is_ok() {
+                who.fetch_add(1, Ordering::SeqCst);
+            }
+        }
+        Prim::Barrier => {
+            s.bar.wait();
+            who.fetch_add(1, Ordering::SeqCst);
+        }
         Prim::Join => {
             let h = go!(|| {
                 CHILD_RUNS.fetch_add(1, Ordering::SeqCst);
@@ -103,7 +146,17 @@ fn block_in(p: Prim, s: &Shared, who: &AtomicU32, rx1: Option<&mpsc::Receiver<u3
 
 fn run(e: &'static Engine, workers: usize, p: Prim, bystander: bool, cancel: bool, event: bool) {
     rt_init(workers);
-    let s = Arc::new(Shared { m: Mutex::new(0), sem: Semphore::new(0), cv: Condvar::new(), cvm: Mutex::new(false), rw: RwLock::new(0), flag: SyncFlag::new() });
+    let (tx3, rx3) = may::sync::spsc::channel::<u32>();
+    let s = Arc::new(Shared {
+        m: Mutex::new(0),
+        sem: Semphore::new(0),
+        cv: Condvar::new(),
+        cvm: Mutex::new(false),
+        rw: RwLock::new(0),
+        flag: SyncFlag::new(),
+        bar: may::sync::Barrier::new(2),
+        rx3: std::sync::Mutex::new(Some(rx3)),
+    });
     let (tx1, rx1) = mpsc::channel::<u32>();
     let (tx2, rx2) = mpmc::channel::<u32>();
     // the main thread holds what the others wait for
@@ -123,7 +176,7 @@ fn run(e: &'static Engine, workers: usize, p: Prim, bystander: bool, cancel: boo
     let w = if bystander {
         let (s2, rx2b) = (s.clone(), rx2.clone());
         // the bystander never blocks on the single-receiver channel
-        let pw = if p == Prim::MpscRecv { Prim::Yield } else { p };
+        let pw = if matches!(p, Prim::MpscRecv | Prim::MpscRecvTimeout) { Prim::Yield } else { p };
         Some(go!(move || {
             let _c = Tracked::new(3);
             block_in(pw, &s2, &W_GOT, None, &rx2b);
@@ -141,29 +194,41 @@ fn run(e: &'static Engine, workers: usize, p: Prim, bystander: bool, cancel: boo
     // without `event` the cancel is the only thing that can end the target's wait: a lost cancel hangs the join;
     // what the others need is released only after the target has been joined
     let mut early: Option<Result<u32, Box<dyn std::any::Any + Send>>> = None;
+    let mut helper = None;
     if !event {
         early = Some(t.take().unwrap().join());
     }
     // the awaited events, enough for the target and the bystander
     match p {
-        Prim::Park => {
+        Prim::Park | Prim::ParkTimeout => {
             if let Some(t) = t.as_ref() {
                 t.coroutine().unpark()
             }
         }
         Prim::Mutex => drop(mg),
         Prim::RwRead | Prim::RwWrite => drop(rg),
-        Prim::Sem => {
+        Prim::Sem | Prim::SemTimeout => {
             s.sem.post();
             s.sem.post();
         }
-        Prim::Condvar => {
+        Prim::Condvar | Prim::CondvarTimeout => {
             *s.cvm.lock().unwrap() = true;
             s.cv.notify_all();
         }
         Prim::Flag => s.flag.fire(),
-        Prim::MpscRecv => {
+        Prim::MpscRecv | Prim::MpscRecvTimeout => {
             let _ = tx1.send(1);
+        }
+        Prim::SpscRecv => {
+            let _ = tx3.send(1);
+        }
+        Prim::Barrier => {
+            // a helper is the second party; whether the target's arrival got counted depends on where the cancel hit it
+            let s2 = s.clone();
+            helper = Some(go!(move || {
+                s2.bar.wait();
+                HELPER_DONE.store(true, Ordering::SeqCst);
+            }));
         }
         Prim::MpmcRecv => {
             let _ = tx2.send(1);
@@ -172,6 +237,19 @@ fn run(e: &'static Engine, workers: usize, p: Prim, bystander: bool, cancel: boo
         Prim::Sleep | Prim::Join | Prim::Yield => {}
     }
     let mut out = String::new();
+    if let Some(h) = helper.take() {
+        // the target is over or inside the barrier: if the helper is still waiting, the target never arrived
+        if early.is_none() {
+            early = Some(t.take().unwrap().join());
+        }
+        e.quiesce();
+        if !HELPER_DONE.load(Ordering::SeqCst) {
+            s.bar.wait();
+        }
+        if h.join().is_err() {
+            e.fail("bystander_hurt", "the other party of the barrier panicked");
+        }
+    }
     let tres = match early {
         Some(r) => r,
         None => t.take().unwrap().join(),
@@ -208,6 +286,7 @@ fn run(e: &'static Engine, workers: usize, p: Prim, bystander: bool, cancel: boo
     }
     drop(tx1);
     drop(tx2);
+    drop(tx3);
     // the primitive is intact
     let (tg, wg) = (T_GOT.load(Ordering::SeqCst), W_GOT.load(Ordering::SeqCst));
     match p {
@@ -228,13 +307,23 @@ fn run(e: &'static Engine, workers: usize, p: Prim, bystander: bool, cancel: boo
             }
             super::c12::probe(e, &s.rw);
         }
-        Prim::Sem => {
+        Prim::Barrier => {
+            // the barrier is reusable after a party was cancelled inside it
+            let s2 = s.clone();
+            let h = go!(move || s2.bar.wait().is_leader());
+            let l = s.bar.wait().is_leader();
+            match h.join() {
+                Ok(l2) if l2 != l => {}
+                _ => e.fail("barrier_leader", "the generation after the cancelled party did not have exactly one leader"),
+            }
+        }
+        Prim::Sem | Prim::SemTimeout => {
             let v = s.sem.get_value() as u32;
             if v + tg + wg != 2 {
                 e.fail("permit_conservation", &format!("2 posts, {} + {} successful waits, value {}", tg, wg, v));
             }
         }
-        Prim::Condvar => {
+        Prim::Condvar | Prim::CondvarTimeout => {
             if s.cvm.try_lock().is_err() {
                 e.fail("not_released", "the condvar's mutex is still locked or poisoned");
             }
@@ -268,11 +357,18 @@ pub fn build(quick: bool) -> Vec<Scenario> {
             (Prim::MpscRecv, false),
             (Prim::MpmcRecv, true),
             (Prim::Join, false),
+            (Prim::ParkTimeout, false),
+            (Prim::SemTimeout, true),
+            (Prim::CondvarTimeout, true),
+            (Prim::MpscRecvTimeout, false),
+            (Prim::SpscRecv, false),
+            (Prim::Barrier, false),
         ] {
             v.push(Scenario::new("C09", "cancel", format!("cancel.{:?}.w{}", p, w).to_lowercase(), Arc::new(move |e| run(e, w, p, by, true, true))).t2());
         }
     }
-    // the cancel is the only wake-up the target ever gets
+    // the cancel is the only wake-up the target ever gets (not for the spsc receive: the statement does not list it as a
+    // cancellable call, it only has to behave when the cancel arrives before or after it)
     for w in [1usize, 2] {
         for p in [Prim::Park, Prim::Mutex, Prim::Sem, Prim::Condvar, Prim::RwWrite, Prim::Flag, Prim::MpscRecv, Prim::MpmcRecv] {
             v.push(Scenario::new("C09", "cancel_only", format!("cancel_only.{:?}.w{}", p, w).to_lowercase(), Arc::new(move |e| run(e, w, p, false, true, false))));
